@@ -231,7 +231,7 @@ def cases(draw):
 
 def run_shard(ctx):
     K = ctx.scale(oracle.K_QUICK, 100)
-    hyp_search(ctx, cases(), lambda c: check_case(c, ctx.stats, K), ctx.scale(40, 2500))
+    hyp_search(ctx, cases(), lambda c: check_case(c, ctx.stats, K), ctx.scale(40, 800))
     cfg = programs.Cfg(call_bias=20, max_funcs=4)
 
     @st.composite
@@ -240,7 +240,7 @@ def run_shard(ctx):
         c["opts"] = VECS[draw(st.integers(0, len(VECS) - 1))]
         return c
 
-    hyp_search(ctx, general(), lambda c: check_case(c, ctx.stats, K), ctx.scale(22, 1500), label="general")
+    hyp_search(ctx, general(), lambda c: check_case(c, ctx.stats, K), ctx.scale(22, 400), label="general")
 
 
 def replay(case):
